@@ -13,7 +13,7 @@ import trajexec
 TU = 64
 
 
-FAR = np.array([2.0 ** 20, -2.0 ** 21, 2.0 ** 20])
+FAR = np.array([2.0 ** 21, -2.0 ** 21, 2.0 ** 21])      # far enough that a shift by (4,-8,12) is within 1e-5 relative
 
 
 def _build(poses, built, u, kind="path", far=False):
